@@ -38,6 +38,15 @@ CLAIMED = {
 
  "C14": ("proof", "Theorems on the hand model of Device.get: FD vectors are the FD system of the stored grid; j = I/(pi r_e^2) 1e-4, fwhm = half the characteristic potential at E+phi_min, v_ra = -min phi, barrier correction = on-axis potential of the same beam at E+V_ax (on the trap grid, or the barrier grid when r_dt_bar is given), barrier potential shifted by V_ax; every override stored verbatim and independent of the other defaults; the trap potential is the ion-free e-beam solution (C13 model/theorems). Correspondence: Device.get field by field for every subset of overrides and n_grid incl. values not divisible by 6 (grid 1e-13, index exact, FD bit-exact, scalars 1e-10, potentials 1e-9). Monitored: strictly increasing grid with r_e as the indexed node, wall zero, outward monotone, between the two analytic uniform-beam potentials (with the solver's velocity model and a 1/k discretisation allowance).",
          "§4 C14", "Lean theorems (decision logic) on hand model + field-by-field correspondence; analytic bounds monitored"),
+
+ "C03": ("proof", "Theorems over ℝ on the hand model of _adv_rhs (whole kernel incl. radial dynamics / recomputed cross sections; agrees with the compiled kernel to <=3e-16 on every output, all 4096 option sets): neutral rows frozen; derivative of every other state = signed sum of the six rates; what EI/RR/DR/CX remove from a state is added to the neighbour; block sum of ion derivatives = R_ei[neutral] - R_rec[1+] - escape (telescoping, any block layout, any rates) under the boundary hypotheses, which also give zero exchange between species; escape rates >= 0 and 0 for neutrals; states below the cut-off have vanishing own rates and can only gain. Boundary hypotheses (bare nucleus, neutral) come from the C07-C10 theorems via AdvancedModel.get correspondence. Finite derivatives: monitored.",
+         "§4 C03", "Lean theorems (telescoping over the shift structure) on hand model + kernel correspondence incl. exhaustive option sets"),
+ "C04": ("proof", "Theorems: dkT of a non-neutral state is the documented sum of terms; per state T*dn + n_r*dkT collapses reaction by reaction; thermal_energy_balance for every block: d/dt sum(n kT) = R_ei[neutral] T - R_rec[1+] T + ionisation heating - recombination cooling + n_r(Spitzer + exchange) - escaping energy - evaporative cooling, i.e. charge-changing reactions neither create nor destroy thermal energy; heat exchange flows hot->cold (with overlap factor), Spitzer heating never cools, escape never heats. Same correspondence as C03 (dkT and all heating rates).",
+         "§4 C04", "Lean theorems (energy telescoping) on hand model + kernel correspondence"),
+ "C05": ("proof", "Theorems: each reported quantity (EI/RR/DR/CX rates, escape rates, trap depths, trapping parameters, thermal velocity, Spitzer heating, electron flux, potential and cross sections actually used) is its documented formula over the model data; derivative = signed sum of enabled terms; a disabled process contributes the zero array and leaves every other stage array definitionally unchanged (switch lemmas for EI, RR, axial escape; EI worked out to the derivative). Correspondence: every rates entry vs the compiled kernel; stored rate arrays of finished simulations = fresh kernel call at the stored state (bit-exact). Independent numpy statement of every formula + switch differencing as monitors.",
+         "§4 C05", "Lean theorems (stage unfolding, switch lemmas) on hand model + correspondence incl. stored rates"),
+ "C06": ("proof", "Theorem adv_refines_basic: with only EI, RR (DR) rates, f_ei = 1 and no CX/escape the advanced derivative of every ion state equals (j_e (EI+RR+DR) N)_k of the basic rate matrix and the neutral row is 0; neutral rows are frozen in every advanced run; with ionisation only the ions grow exactly by the ionised neutrals; the electron flux equals the basic unit conversion. Correspondence: _assemble_initial_conditions bit-exact, kernel on the limit option sets with cold injected ions. The end-to-end agreement through Radau/LSODA and the deviation for merely cold ions are monitored (advanced vs basic runs).",
+         "§4 C06", "Lean theorem (refinement of the right-hand sides) + correspondence; end-to-end monitored"),
 }
 PENDING = {}
 def main():
